@@ -182,7 +182,9 @@ def build(cfg):
 
     class Reg(wiring.Component):
         def __init__(self, w, access):
-            super().__init__({"element": Out(csr.Element.Signature(w, access))})
+            # the access mode is accepted as a string or as the enum member
+            acc = access if w % 2 == 0 else csr.Element.Access(access)
+            super().__init__({"element": Out(csr.Element.Signature(w, acc))})
 
         def elaborate(self, platform):
             return Module()
